@@ -658,3 +658,27 @@ Fixpoint no_leading_eq (v : json) : bool :=
          end) kvs
   | _ => true
   end.
+
+(* ---------- repr(float) as a table of observed texts ---------- *)
+
+(* The encoder model takes repr(float) as a parameter.  The correspondence
+   check instantiates it with the texts CPython produced for the floats of the
+   case, and [ftable_ok] decides the two facts the proofs need of them. *)
+Definition ftable := list ((Z * Z) * string).
+
+Fixpoint fprint_of (tb : ftable) (m e : Z) : text :=
+  match tb with
+  | [] => []
+  | ((m', e'), s) :: r => if (m =? m') && (e =? e') then txt s else fprint_of r m e
+  end.
+
+Definition fentry_ok (en : (Z * Z) * string) : bool :=
+  let '((m, e), s) := en in
+  match numeral_kind (txt s) with Some KFloat => true | _ => false end &&
+  match fparse (txt s) with Some (a, b) => (a =? m) && (b =? e) | None => false end &&
+  float_ok m e.
+
+Definition ftable_ok (tb : ftable) : bool := forallb fentry_ok tb.
+
+Definition in_table (tb : ftable) (m e : Z) : bool :=
+  existsb (fun en => (m =? fst (fst en)) && (e =? snd (fst en))) tb.
